@@ -8,7 +8,9 @@ and notify (DESIGN section 5 C20, section 10 lesson).
 import threading
 import time as realtime
 
-R = 10.0
+R = 10.0          # reconnect timeout in virtual seconds
+UNIT = 1.0 / 16   # one specification tick (exactly representable: no float trouble at the watchdog boundaries)
+RT = 160          # R in ticks
 
 
 class World:
@@ -177,6 +179,8 @@ def install(world, dev):
             if not ok:
                 raise serial.SerialException("could not open port")
             c = FakeSerial(world, len(world.conns))
+            if ok == "okerr":
+                c.rx.append(serial.SerialException("device disconnected right after opening"))
             world.conns.append(c)
             return c
 
@@ -193,6 +197,8 @@ def install(world, dev):
             if not ok:
                 raise OSError("connection refused")
             c = FakeSocket(world, len(world.conns))
+            if ok == "okerr":
+                c.rx.append(OSError("connection reset right after connect"))
             world.conns.append(c)
             return c
 
@@ -220,6 +226,8 @@ class SyncLink:
         self.dev = dev
         self.w = World()
         self.w.base_threads = {t.ident for t in threading.enumerate()}
+        self.w.thread_errors = []
+        threading.excepthook = lambda a: self.w.thread_errors.append(f"{a.thread.name}: {a.exc_type.__name__}")   # recorded, not printed
         install(self.w, dev)
         if dev == "serial":
             self.gw = m.SerialGateway("/dev/fake", reconnect_timeout=R, protocol_version=version)
@@ -241,9 +249,9 @@ class SyncLink:
         self.gw.start()
         self._q()
 
-    def advance(self, dt, plan=()):
+    def advance(self, ticks, plan=()):
         self.w.plan += list(plan)
-        self.w.do(lambda: setattr(self.w, "now", self.w.now + dt))
+        self.w.do(lambda: setattr(self.w, "now", self.w.now + ticks * UNIT))
         self._q()
 
     def live(self):
@@ -284,8 +292,8 @@ class SyncLink:
         lost = [e for e in w.events if e[0] == "lost"]
         probes = sum(1 for c in w.conns for (d, t) in c.written if d == b"0;255;3;0;2;\n")
         lib = [t for t in threading.enumerate() if t.ident not in w.base_threads and t.is_alive()]
-        return {"now": int(w.now), "made": len(made), "lost": len(lost), "lostexc": [1 if e[2] else 0 for e in lost],
-                "attempts": [int(t) for t in w.attempts], "nconn": len(w.conns), "live": len(self.live()),
+        return {"now": int(round(w.now / UNIT)), "made": len(made), "lost": len(lost), "lostexc": [1 if e[2] else 0 for e in lost],
+                "attempts": [int(round(t / UNIT)) for t in w.attempts], "nconn": len(w.conns), "live": len(self.live()),
                 "probes": probes, "after_stop": len(w.after_stop), "threads": len(lib), "quiescent": self.ok}
 
     def shutdown(self):
